@@ -205,7 +205,7 @@ def layout(draw, max_n=64, max_parts=5, backends=('flat', 'flat', 'npy', 'array'
     if backend == 'flat':
         lay['parts'] = draw(composition(n, max_parts))
         lay['offset'] = draw(st.sampled_from([0, 0, 1, 2, 7, 16, 31]))
-        lay['ext'] = draw(st.sampled_from(['.dat', '.bin', '.raw']))
+        lay['ext'] = draw(st.sampled_from(['.dat', '.bin', '.raw', 'mixed']))
         lay['names'] = draw(st.sampled_from(['asc', 'desc', 'num', 'samebase']))
     else:
         lay['parts'] = [n]
